@@ -30,7 +30,7 @@ func (check) Cases(tier string) int {
 }
 
 func (check) Rule() string {
-	return "a forest of up to 3 live configs: the first is built from a generated tree (every node a dictionary or a list, no references; root a dictionary, in 1 of 5 cases a list; in 1 of 8 cases below a spine of 5-259 further levels of dictionaries and lists, depths drawn around the powers of two), further ones come into being as merge operands that stay in use (a *Config, a wrapper whose child is merged) or as clones (NewFrom of a live root or child handle). Names come from a small pool that in 1 of 6 cases also holds the empty name and in 1 of 6 cases a name containing a separator of the pool other than the one the case splits names at. Go data (initial tree, merge operands, fresh children) is rendered as nested maps, interface-keyed maps or run-time built structs, in 1 of 3 renderings with dotted names: settings of nested dictionaries moved up under a name joined with the separator ({\"a.b\": X, a: {c: Y}}), X a primitive, an object or a list. History of 3-20 shape-aware operations, each issued on the root of one tree or on a handle obtained with Child for a randomly chosen container of it (addresses relative to that receiver, spelled with a per-case path separator from a pool): writes of primitives and fresh sub-configs at existing/new keys and list positions, also several (up to 80) levels below anything that exists (a container without named settings and without elements is written by name or by index, so emptied dictionaries become lists and emptied lists dictionaries), removals (biased to the middle of lists and to the last setting of a container), merges under default/append/prepend/replace/arr-replace of either a shape-compatible mutation of the receiver's subtree or a LIVE node (root or child of another tree, or a node of the same tree beside the receiver), re-attachment of an already parented child anywhere in any tree, also below itself (SetChild of a handle obtained with Child: a copy), SetChild of the root of the tree written to (must be refused or attach a copy), clones. After EVERY step and for EVERY live tree: (1) hook walk: every stored field name equals the key/index actually leading to the node and every stored parent is the config actually holding it; (2) API walk: Child(...).Path(sep) and PathOf(field, sep) equal the address sequence and Parent() is the config it was reached from, FlattenedKeys of sampled child handles lists the root-relative paths below them; (3) FlattenedKeys equals the model's list of non-nil primitive leaf paths, each the names joined with the separator; (4) CompareConfigs equals the (kept, added, removed) partition of the two sets of path strings for (tree, equal copy: no change), (state before the step, tree) and (another live tree or an empty config, tree), in either order. Every observer call draws its own option list: no option at all (paths spelled with \".\") or PathSep with a separator from the pool (paths spelled with it). Non-trivial = history with >= 2 successful structural mutations; distinct = distinct (initial tree, history)."
+	return "a forest of up to 3 live configs: the first is built from a generated tree (every node a dictionary or a list, no references; root a dictionary, in 1 of 5 cases a list; in 1 of 8 cases below a spine of 5-259 further levels of dictionaries and lists, depths drawn around the powers of two), further ones come into being as merge operands that stay in use (a *Config, a wrapper whose child is merged) or as clones (NewFrom of a live root or child handle). Names come from a small pool that in 1 of 6 cases also holds the empty name and in 1 of 6 cases a name containing a separator of the pool other than the one the case splits names at. Go data (initial tree, merge operands, fresh children) is rendered as nested maps, interface-keyed maps or run-time built structs, in 1 of 3 renderings with dotted names: settings of nested dictionaries moved up under a name joined with the separator ({\"a.b\": X, a: {c: Y}}), X a primitive, an object or a list. History of 3-20 shape-aware operations, each issued on the root of one tree or on a handle obtained with Child for a randomly chosen container of it (addresses relative to that receiver, spelled with a per-case path separator from a pool): writes of primitives and fresh sub-configs at existing/new keys and list positions, also several (up to 80) levels below anything that exists (a container without named settings and without elements is written by name or by index, so emptied dictionaries become lists and emptied lists dictionaries), removals (biased to the middle of lists and to the last setting of a container), merges under default/append/prepend/replace/arr-replace of either a shape-compatible mutation of the receiver's subtree or a LIVE node (root or child of another tree, or a node of the same tree beside the receiver), re-attachment of an already parented child anywhere in any tree, also below itself (SetChild of a handle obtained with Child: a copy), SetChild of the root of the tree written to (must be refused or attach a copy), clones. Sixth wave: a merge step draws next to its global policy 0-2 per-field options (Field{Merge,Replace,Append,Prepend}Values, anywhere in the option list) on paths of 1-3 names/indices that exist below the receiver or in the operand (preferably in both) - the structure such a merge leaves is read back with the non-evaluating walk and all observers must describe it; 1 write in 9 is one that must be refused (position given by the idx argument beyond MaxIdx - default or given with the call - and beyond the end of an existing container or of one the write would have created 1-3 levels down; SetChild of a parentless config or a primitive): the child handed in stays parentless with an empty path and its own keys, the tree is as before. After EVERY step and for EVERY live tree: (1) hook walk: every stored field name equals the key/index actually leading to the node and every stored parent is the config actually holding it; (2) API walk: Child(...).Path(sep) and PathOf(field, sep) equal the address sequence and Parent() is the config it was reached from, FlattenedKeys of sampled child handles lists the root-relative paths below them; (3) FlattenedKeys equals the model's list of non-nil primitive leaf paths, each the names joined with the separator; (4) CompareConfigs equals the (kept, added, removed) partition of the two sets of path strings for (tree, equal copy: no change), (state before the step, tree) and (another live tree or an empty config, tree), in either order. Every observer call draws its own option list: no option at all (paths spelled with \".\") or PathSep with a separator from the pool (paths spelled with it). Non-trivial = history with >= 2 successful structural mutations; distinct = distinct (initial tree, history)."
 }
 
 func (check) Assumptions() []string {
@@ -45,6 +45,8 @@ func (check) Assumptions() []string {
 		"a node with zero named settings that holds elements is a list (and one with named settings and no elements a dictionary) whatever it held earlier; merges never let named settings meet elements in one node",
 		"a live node is merged only into a receiver outside its own subtree and not above it",
 		"not generated: handles kept across the removal/replacement of their node (nodes no longer reachable in a config, audit item 6); Unpack and by-value copies of Config (Unpack is none of the merges, writes and removals of the statement, audit item 5)",
+		"which settings and values a merge with per-field options yields is C16's subject: after such a merge the model is the structure found by the non-evaluating walk (names/indices followed, kinds, primitive values), and C15 demands that stored names, parents, Path, Parent, FlattenedKeys and the diffs describe that structure; drawn only for trees of at most 48 levels, paths without the empty name, two options never one inside the other",
+		"a write whose idx argument lies beyond MaxIdx and beyond the end of the list is expected to be refused; if it is accepted the history ends unjudged (monitor writes_beyond_maxidx_that_were_accepted) - a refused write must change neither the tree nor the config handed in",
 		"the verif hook walks 64 levels; stored names and parents further down are observed through Path/Parent/FlattenedKeys only",
 	}
 }
@@ -783,6 +785,9 @@ func (s *state) step() bool {
 			q = blanks[r.Intn(len(blanks))]
 		}
 		n := at(rm, q)
+		if r.Intn(9) == 0 {
+			return s.refusedWrite(t, prev, recv, rq, q, n, kind, pfx)
+		}
 		var seg string
 		switch {
 		case blank(n):
@@ -1107,9 +1112,16 @@ func (s *state) step() bool {
 		if blank(rm) && len(b.D) > 0 && s.emptiedList[rm] {
 			s.res.Ev("emptied_list_then_map_merged_in", 1)
 		}
+		// 0-2 per-field options next to the global policy, on paths (relative
+		// to the receiver, dot notation) that exist in the receiver or the operand
+		fos := s.fieldOptions(t, rq, rm, b, pol.p)
+		for _, f := range fos {
+			pos := s.r.Intn(len(mo) + 1) // anywhere in the option list
+			mo = append(mo[:pos:pos], append([]ucfg.Option{f.o}, mo[pos:]...)...)
+		}
 		err := recv.Merge(operand, mo...)
 		s.res.Eval(1)
-		s.log = append(s.log, fmt.Sprintf("%sMerge[%v,%s](%s)", pfx, pol.p, fname, b))
+		s.log = append(s.log, fmt.Sprintf("%sMerge[%v%s,%s](%s)", pfx, pol.p, describe(fos), fname, b))
 		if err != nil {
 			s.fail("merge-error", "Merge into %s at %v failed: %v", kind, rq, err)
 			return true
@@ -1118,6 +1130,22 @@ func (s *state) step() bool {
 		sig := ""
 		if kind != "root-dict" {
 			sig = "wrong-context-after-" + pol.p.String() + "-merge-into-" + kind
+		}
+		if len(fos) > 0 {
+			// which values such a merge yields is C16's subject: the structure
+			// that is there now is read with the non-evaluating walk, and all
+			// positional metadata must describe THAT structure
+			sig = "wrong-context-after-" + pol.p.String() + "-merge-with-field-options"
+			asGlobal := shape(at(tr.m, rq))
+			m2, ok := readBack(ucfg.VerifWalk(tr.c))
+			if !ok {
+				s.res.Inconc("structure after a merge with field options could not be read back")
+				return true
+			}
+			tr.m = m2
+			if shape(at(m2, rq)) != asGlobal {
+				s.res.Ev("merges_with_field_options_where_the_options_changed_the_outcome", 1)
+			}
 		}
 		s.events = append(s.events, event{t, join(rq), sig})
 		if srcT >= 0 {
